@@ -245,7 +245,7 @@ theorem laws : ParserLaws model where
           rw [← (run_inv rx s cb0 hr).1]
           exact hp
   info_url_trailer := by
-    intro body t u hu _ hp
+    intro body t u hu _ _ hp
     obtain ⟨hw, rfl⟩ := parse_some hp
     obtain ⟨hne, hcons, hbad⟩ := (wholeOk_iff body).mp hw
     have hw' : wholeOk (body ++ trailer u) = true := by
